@@ -189,8 +189,19 @@ func runSubStack(e *vlib.Env) vlib.Result {
 	base := int(inner.SubCalls.Load())
 
 	// 2. subscribe, emit, receive in order, settle per plan
+	// in half of the cases the subscription contexts are cancelled while some messages are still held unsettled; the
+	// held messages are settled afterwards and still have to be counted ("every settled received message exactly once")
+	lateSettle := r.Bool()
+	var cancels []context.CancelFunc
+	defer func() {
+		for _, c := range cancels {
+			c()
+		}
+	}()
 	for s, p := range subs {
-		out, err := top.Subscribe(context.Background(), p.Topic)
+		sctx, cancel := context.WithCancel(context.Background())
+		cancels = append(cancels, cancel)
+		out, err := top.Subscribe(sctx, p.Topic)
 		if err != nil {
 			res.Fail("subscribe-error-passthrough", "stack %s: Subscribe(%s) failed: %v", stack, p.Topic, err)
 			return res
@@ -214,6 +225,8 @@ func runSubStack(e *vlib.Env) vlib.Result {
 		go func() { // the broker side
 			defer wg.Done()
 			for _, mp := range p.Msgs {
+				// like a broker client: the message context derives from the subscription context
+				mp.sent.SetContext(p.sp.Ctx)
 				if !p.sp.Send(mp.sent) {
 					fail("message-lost", "stack %s: subscription %s ended before message %s was taken", stack, p.Topic, mp.UUID)
 					return
@@ -287,6 +300,13 @@ func runSubStack(e *vlib.Env) vlib.Result {
 		return res
 	}
 	held := 0
+	if lateSettle {
+		for _, c := range cancels {
+			c()
+		}
+		vlib.Settle(vlib.WD)
+		res.Count("cases_settling_after_subscription_cancel", 1)
+	}
 	for _, p := range subs {
 		for _, mp := range p.Msgs {
 			if strings.HasPrefix(mp.Action, "hold-") {
